@@ -15,6 +15,8 @@ pub struct GenCfg {
     pub hm: u8,
     pub limits: bool,
     pub zst: bool,
+    pub par: bool,
+    pub serde: bool,
 }
 
 fn pick<T: Copy>(rng: &mut SmallRng, v: &[T]) -> Option<T> {
@@ -293,6 +295,20 @@ impl Gen {
         let st = w.vstate(s).unwrap();
         let split = st.split;
         let len = st.main_len + st.old_len;
+        if self.cfg.par && self.rng.gen_bool(if split { 0.45 } else { 0.15 }) {
+            return self.par_op(w, s, nslots);
+        }
+        if self.cfg.serde && self.rng.gen_bool(if split { 0.35 } else { 0.12 }) {
+            let d = 3 - s;
+            let mut o = json!({"op":"Serde","s":s,"d":d,"hm":self.cfg.hm});
+            if self.cfg.set && w.alive(d) && self.rng.gen_bool(0.5) {
+                o["inplace"] = json!(1);
+            }
+            return o;
+        }
+        if (self.cfg.par || self.cfg.serde) && self.rng.gen_bool(0.05) {
+            return json!({"op":"Debug","s":s});
+        }
         let r = self.rng.gen_range(0..100);
         // when split, bias towards calls that do not move elements, to stay mid-resize
         let adding_cut = if split { 22 } else { 50 };
@@ -439,6 +455,47 @@ impl Gen {
                 }
             }
         }
+    }
+
+    fn par_op<K: KeyT, V: ValT>(&mut self, w: &World<K, V>, s: usize, nslots: usize) -> Value {
+        let threads = *[1usize, 2, 3, 4, 8, 16].choose(&mut self.rng).unwrap();
+        let d = 3 - s;
+        let two = nslots == 2 && w.alive(d);
+        if self.cfg.set {
+            let r = self.rng.gen_range(0..10);
+            if two && r < 6 {
+                let kinds = ["par_union", "par_intersection", "par_difference", "par_symmetric_difference", "par_is_disjoint", "par_is_subset", "par_is_superset"];
+                return json!({"op":"SPar","s":s,"d":d,"threads":threads,"kind": *kinds.choose(&mut self.rng).unwrap()});
+            }
+            if two && r < 7 {
+                return json!({"op":"ParEq","s":s,"d":d,"threads":threads});
+            }
+            if r < 9 {
+                return json!({"op":"Par","s":s,"kind":"par_iter","threads":threads});
+            }
+        } else {
+            let r = self.rng.gen_range(0..10);
+            if r < 7 {
+                let kinds = ["par_iter", "par_keys", "par_values", "par_iter_mut", "par_values_mut", "ref_into_par", "mut_into_par"];
+                let kind = *kinds.choose(&mut self.rng).unwrap();
+                let mut o = json!({"op":"Par","s":s,"kind":kind,"threads":threads});
+                if kind.contains("mut") {
+                    o["add"] = json!(self.addv());
+                }
+                return o;
+            }
+            if two && r < 8 {
+                return json!({"op":"ParEq","s":s,"d":d,"threads":threads});
+            }
+        }
+        let n = self.rng.gen_range(0..12);
+        let items: Vec<Value> = (0..n)
+            .map(|_| {
+                let k = if self.rng.gen_bool(0.6) { self.key_absent(w, s) } else { self.any_key(w, s) };
+                json!([k, self.val()])
+            })
+            .collect();
+        json!({"op":"ParExtend","s":s,"items":items,"threads":threads})
     }
 
     fn next_set_op<K: KeyT, V: ValT>(
